@@ -3,6 +3,7 @@ package bsonkit
 import (
 	"bytes"
 	"math"
+	"math/big"
 	"strings"
 
 	"github.com/shopspring/decimal"
@@ -65,10 +66,7 @@ func compareNumbers(lv, rv interface{}) int {
 		case int64:
 			return compareFloat64ToInt64(l, r)
 		case primitive.Decimal128:
-			// safeFloatToDec guards against float64 NaN/±Inf, which would
-			// otherwise panic decimal.NewFromFloat (collapses to zero —
-			// non-finite ordering is a known imprecision, see math.go TODO)
-			return safeFloatToDec(l).Cmp(safeD128ToDec(r))
+			return compareExact(exactFromFloat64(l), exactFromDecimal128(r))
 		}
 	case int32:
 		switch r := rv.(type) {
@@ -79,7 +77,7 @@ func compareNumbers(lv, rv interface{}) int {
 		case int64:
 			return compareInt64s(int64(l), r)
 		case primitive.Decimal128:
-			return decimal.NewFromInt32(l).Cmp(safeD128ToDec(r))
+			return compareExact(exactFromInt64(int64(l)), exactFromDecimal128(r))
 		}
 	case int64:
 		switch r := rv.(type) {
@@ -90,22 +88,91 @@ func compareNumbers(lv, rv interface{}) int {
 		case int64:
 			return compareInt64s(l, r)
 		case primitive.Decimal128:
-			return decimal.NewFromInt(l).Cmp(safeD128ToDec(r))
+			return compareExact(exactFromInt64(l), exactFromDecimal128(r))
 		}
 	case primitive.Decimal128:
 		switch r := rv.(type) {
 		case float64:
-			return safeD128ToDec(l).Cmp(safeFloatToDec(r))
+			return compareExact(exactFromDecimal128(l), exactFromFloat64(r))
 		case int32:
-			return safeD128ToDec(l).Cmp(decimal.NewFromInt32(r))
+			return compareExact(exactFromDecimal128(l), exactFromInt64(int64(r)))
 		case int64:
-			return safeD128ToDec(l).Cmp(decimal.NewFromInt(r))
+			return compareExact(exactFromDecimal128(l), exactFromInt64(r))
 		case primitive.Decimal128:
-			return safeD128ToDec(l).Cmp(safeD128ToDec(r))
+			return compareExact(exactFromDecimal128(l), exactFromDecimal128(r))
 		}
 	}
 
 	panic("bsonkit: unreachable")
+}
+
+// exactNumber is a number prepared for an exact comparison. The kind orders
+// NaN before negative infinity before all finite values before positive
+// infinity; finite values carry their exact decimal value.
+type exactNumber struct {
+	kind int
+	dec  decimal.Decimal
+}
+
+const (
+	exactNaN = iota
+	exactNegInf
+	exactFinite
+	exactPosInf
+)
+
+func exactFromInt64(i int64) exactNumber {
+	return exactNumber{kind: exactFinite, dec: decimal.NewFromInt(i)}
+}
+
+func exactFromFloat64(f float64) exactNumber {
+	// handle non-finite values
+	if math.IsNaN(f) {
+		return exactNumber{kind: exactNaN}
+	} else if math.IsInf(f, 1) {
+		return exactNumber{kind: exactPosInf}
+	} else if math.IsInf(f, -1) {
+		return exactNumber{kind: exactNegInf}
+	}
+
+	// a finite float64 is num/2^k exactly, which equals (num*5^k)/10^k
+	rat := new(big.Rat).SetFloat64(f)
+	k := rat.Denom().BitLen() - 1
+	num := new(big.Int).Set(rat.Num())
+	if k > 0 {
+		num.Mul(num, new(big.Int).Exp(big.NewInt(5), big.NewInt(int64(k)), nil))
+	}
+
+	return exactNumber{kind: exactFinite, dec: decimal.NewFromBigInt(num, int32(-k))}
+}
+
+func exactFromDecimal128(d primitive.Decimal128) exactNumber {
+	// handle non-finite values
+	if d.IsNaN() {
+		return exactNumber{kind: exactNaN}
+	} else if d.IsInf() > 0 {
+		return exactNumber{kind: exactPosInf}
+	} else if d.IsInf() < 0 {
+		return exactNumber{kind: exactNegInf}
+	}
+
+	return exactNumber{kind: exactFinite, dec: safeD128ToDec(d)}
+}
+
+func compareExact(l, r exactNumber) int {
+	// order by kind first
+	if l.kind < r.kind {
+		return -1
+	} else if l.kind > r.kind {
+		return 1
+	}
+
+	// non-finite values of the same kind are equal
+	if l.kind != exactFinite {
+		return 0
+	}
+
+	return l.dec.Cmp(r.dec)
 }
 
 func compareStrings(lv, rv interface{}) int {
